@@ -2,7 +2,8 @@ import McpModel.Generated.SessionsGen
 /-!
 E7 — model of the session layer of `mcp.StreamableHTTPHandler` (mcp/streamable.go:47-125 sessionInfo,
 refs, idle timer; 341-460 ServeHTTP, stateless path; 554-757 serveStateful*, lookupSession, creation
-path, onClose removal, DELETE).  Serves C11.
+path, onClose removal, DELETE).  Serves C11, and the session half of C05 (closing terminates and leaves
+no timer behind).
 
 A labelled transition system.  One label = one atomic section of the Go code:
 
@@ -11,6 +12,13 @@ A labelled transition system.  One label = one atomic section of the Go code:
                 the hand-over of the message to the session's transport; without a session id:
                 `GetSessionID` + `Server.Connect` — the new server session exists and is listed by
                 `Server.Sessions()`, but is not yet in `h.sessions`.
+* `postHead`    the request HEADERS of a POST with a session id have arrived: `lookupSession` + `startPOST`; the
+                session's transport now blocks reading the body.  The POST is in progress from here (`posts`, and the
+                ghost `upl` = POSTs in progress whose body is still on its way); no handler is in flight for it, so a
+                close of the session can complete while it lasts.
+* `postBody`    the body of such a POST is complete: the message is handed to the server session — unless its `Close`
+                has begun (then the connection answers itself; on a closed session nothing is delivered at all).
+                `postBegin` with a session id is `postHead` and `postBody` back to back (a body that arrives at once).
 * `publish`     the rest of the creation path: `time.AfterFunc`, the publication critical section
                 under `h.mu` (F20: it must not publish a session whose `onClose` has already run),
                 `startPOST`, hand-over of the creating POST's message to the transport.
@@ -122,6 +130,7 @@ structure Sess where
   posts : Nat             -- ghost: POSTs in progress on this session
   idleSince : Nat         -- ghost: instant at which `refs` last dropped to 0
   closeErr : Bool         -- closing the connection reported an error: what every `Close()` returns
+  upl : Nat := 0          -- ghost: POSTs in progress whose body has not arrived yet (counted in `posts` too)
 deriving DecidableEq, Repr
 
 structure Cfg where
@@ -150,6 +159,8 @@ def State.replayFails (s : State) : Bool := s.cfg.eventStore && s.faults.after
 
 inductive Label where
   | postBegin (sid : Option Nat) (u : User) (k : Kind)
+  | postHead (sid : Option Nat) (u : User)
+  | postBody (sid : Nat) (k : Kind)
   | handlerDone (sid : Nat) (isInit : Bool)
   | publish (sid : Nat)
   | postEnd (sid : Option Nat) (creator : Bool)
@@ -223,6 +234,16 @@ def deliver (ok : Bool) (k : Kind) (e : Sess) : Sess :=
     | .notif => e
 
 def startPost (ok : Bool) (k : Kind) (e : Sess) : Sess := deliver ok k (startTimer e)
+
+/-- The request HEADERS of a POST have arrived (`lookupSession`, `startPOST`); the transport now reads the
+body, which is still on its way: the POST is in progress, nothing has been handed over. -/
+def headF (e : Sess) : Sess := { startTimer e with upl := e.upl + 1 }
+
+/-- The body of such a POST is complete: the message is handed to the server session (if its `Close`
+has not begun — on a session that is closed and gone nothing is delivered). -/
+def bodyF (ok : Bool) (k : Kind) (e : Sess) : Option Sess :=
+  if e.upl = 0 || e.pending.isSome then none
+  else some (deliver ok k { e with upl := e.upl - 1 })
 
 /-- The transport can open the stream a POST of kind `k` needs. -/
 def State.accepts (s : State) (k : Kind) : Bool := !(k.hasCall && s.openFails)
@@ -332,6 +353,23 @@ def stepStateful (s : State) : Label → Option (State × Resp)
       match modify i (fun x => some (startPost (s.accepts k) k x)) s.tbl with
       | none => none
       | some t => some ({ s with tbl := t }, postResp s k (if k.isInitialize then some i else none) e.closing)
+  | .postHead none _ => none     -- (a creating POST reads its body after the publication: not modelled apart)
+  | .postHead (some i) u =>
+    match lookup s.tbl i u with
+    | .error st => some (s, .reject st)
+    | .ok e =>
+      match modify i (fun x => some (headF x)) s.tbl with
+      | none => none
+      | some t => some ({ s with tbl := t }, .forward none (!e.closing))
+  | .postBody i k =>
+    -- (a piecewise body that carries `initialize` is not modelled: the label is for calls and notifications)
+    if k.isInitialize then none
+    else match findSess i s.tbl with
+    | none => none
+    | some e =>
+      match modify i (bodyF (s.accepts k) k) s.tbl with
+      | none => none
+      | some t => some ({ s with tbl := t }, postResp s k none e.closing)
   | .handlerDone i isInit =>
     match modify i (handlerDoneF isInit) s.tbl with
     | none => none
